@@ -354,7 +354,7 @@ class C02(Check):
     design_ref = 'DESIGN.md 3.1'
     runs = {'quick': 5000, 'thorough': 120000}
     shrink_lists = (('ops',), ('config', 'mws'))
-    hashseeds = {'quick': [1, 2], 'thorough': [1, 2, 3, 4]}
+    hashseeds = {'quick': ['1:O', 2], 'thorough': ['1:O', 2, 3, '4:O']}
     hashseed_sample = {'quick': 300, 'thorough': 3000}    # the property is quantified over the hash seed
     rule = ('resolvable-by-construction injection stacks (0-4 middlewares at app/route level, any phases, signatures mixing '
             'required/defaulted/keyword-only parameters over URL bindings (str/int/float, repeated, optional, optional/repeated with a converter; values incl. 0, 0.0, absent, empty), resources, built-ins, provides; '
@@ -377,7 +377,7 @@ class C02(Check):
     level_note = 'Trusted: the resolver (~40 lines from the property text), generator validity rules V1-V3.'
     required_probes = ('embedded-in-parent-offering-more-names', 'decoy-route-binding-named-like-resource', 'positional-next-multi', 'render-error-injected', 'optional-got-offered-value', 'kwonly-got-offered-value', 'null-route-defaults', 'concurrent-batch',
                        'kind-lambda', 'kind-callable', 'kind-classmethod', 'kind-decorated', 'multi-url-value',
-                       'same-url-as-previous-request-while-another-is-served', 'same-application-embedded-in-second-parent', 'name-spelled-like-generated-code-identifier', 'default-for-name-provided-elsewhere', 'optional-url-binding-absent', 'optional-url-binding-zero', 'optional-url-binding-present', 'url-value-zero', 'multi-url-binding-empty')
+                       'url-list-value-mutated-after-request', 'same-url-as-previous-request-while-another-is-served', 'same-application-embedded-in-second-parent', 'name-spelled-like-generated-code-identifier', 'default-for-name-provided-elsewhere', 'optional-url-binding-absent', 'optional-url-binding-zero', 'optional-url-binding-present', 'url-value-zero', 'multi-url-binding-empty')
 
     def generate(self, seed, tier):
         S = Streams(seed)
@@ -518,6 +518,7 @@ class C02(Check):
                     return res
         res.steps = sum(len(op['reqs']) for op in plan['ops'])
         res.extra.pop('_objs', None)
+        res.extra.pop('_url_lists', None)
         return res
 
     def judge(self, cfg, app, resources, pattern, r, env, ex, res, step, mode):
@@ -576,6 +577,22 @@ class C02(Check):
                                 % (src, v, why, canon(cfg)), step)
                     return
             descr.append((fname, sorted(d.items())))
+        # a converted URL value that is a container belongs to this request: the application may keep or change it
+        # (which the harness now does) without any other request ever seeing that
+        lists = res.extra.setdefault('_url_lists', {})
+        for fname, kwargs in calls:
+            for p, v in kwargs.items():
+                if isinstance(v, list) and on_offer(cfg, fname, kind).get(p, '').startswith('url:'):
+                    if id(v) in lists and lists[id(v)][0] != seq:
+                        res.violate(K + 'url-value-object-shared-between-requests',
+                                    ctx + ' %s(%s) got the very list object request #%d got' % (fname, p, lists[id(v)][0]), step)
+                        return
+                    if id(v) not in lists:
+                        lists[id(v)] = (seq, v)
+        for oseq, v in list(lists.values()):
+            if oseq == seq and not (v and v[-1] == 'kept-and-changed-by-the-application'):
+                v.append('kept-and-changed-by-the-application')
+                res.probe('url-list-value-mutated-after-request')
         # per-request objects are never shared between two requests
         glob = res.extra.setdefault('_objs', {})
         for o in seen_request[:1] + seen_ds[:1]:
